@@ -57,10 +57,15 @@ def gap_kind(tokens, is_define, g):
     return 'inner'
 
 
+_ALL_STD = ('typedef int int8_t, uint8_t, int16_t, uint16_t, int32_t, uint32_t, int64_t, uint64_t, size_t, '
+            'ssize_t, intptr_t, uintptr_t, wchar_t, _Bool;')
 COMMENT_WORDS = ['x', 'int', ' ', '  ', '\t', '*', '/', '//', '/*', '/**', '**', '#define X 1', '#', '...',
                  '[...]', '= ...', '"', "'", '""', ';', '{', '}', '(', ')', ',', '\\', '\\\\', 'extern "Python"',
                  '# 5 "x.h"', '#line 3', 'typedef', 'struct s { int a; };', '__stdcall', 'unsigned', '@', '$',
-                 'long comment text here', '\xe9', '*\\', '/ *', '* /']
+                 'long comment text here', '\xe9', '*\\', '/ *', '* /',
+                 # comments that look like declarations of the standard type names the cdef may use
+                 _ALL_STD, _ALL_STD, 'typedef unsigned char uint8_t;', 'as large as a size_t', 'was: uint16_t,',
+                 'typedef struct s s_t; size_t;', 'int32_t x, y; wchar_t w;']
 FILENAMES = ['f.h', '<built-in>', 'a//b.h', 'a/*b.h', 'x*/y.h', '/*', '*/', '//', 'dir/sub/file.h', ' ', '',
              '#define X 1', '...', "it's", 'a b.h', '/* c */', 'f.h // x', '\\\\', 'extern', '[...]']
 WS_CHARS = [' ', '\t', '\n', '  ', ' \t ', '\n\n', '\n \n', '\f', '\v', '\r\n', '\r']
